@@ -85,3 +85,46 @@ def mixed_values(T, rng, prog, k=2):
     for _ in range(k):
         out.append(gen.gen_value(rng, prog["rtype"], "rand"))
     return out
+
+
+def grid_progs(widths=None, per_msg=6):
+    """Two-dimensional arrays Alias[2] whose rows (aliases of arrays, extensible or not) have storage padding
+    that adds up to 8, 16, 24 or 32 bits -- the sizes at which 'row bits == 8 * sizeof(row)' holds by
+    coincidence once a 16-bit prefix is counted.  Yields programs with `per_msg` such fields each, led by a
+    uint3 so that half of the rows start off a byte boundary."""
+    widths = widths or [3, 4, 5, 6, 7, 9, 12, 20, 24, 28, 40, 48, 56, 60]
+    items = []
+    for n in widths:
+        S = 8 if n <= 8 else 16 if n <= 16 else 32 if n <= 32 else 64
+        pad = S - n
+        if pad <= 0:
+            continue
+        for target in (16, 8, 32, 24):
+            if target % pad == 0 and 1 <= target // pad <= 16:
+                for ext in (True, False):
+                    for kind in ("uint", "int"):
+                        items.append((kind, n, target // pad, ext))
+    out = []
+    for g in range(0, len(items), per_msg):
+        chunk = items[g:g + per_msg]
+        decls, body, fields = [], [], []
+        body.append({"d": "field", "name": "lead", "num": 1, "t": {"k": "uint", "n": 3}})
+        fields.append({"num": 1, "name": "lead", "t": {"k": "uint", "n": 3}})
+        for x, (kind, n, cap, ext) in enumerate(chunk):
+            T = {"k": kind, "n": n}
+            name = "Row%d" % x
+            ate = {"k": "array", "elem": dict(T), "cap": gen.lit(cap), "ext": ext}
+            decls.append({"d": "alias", "name": name, "t": ate})
+            art = {"k": "alias", "name": name, "to": {"k": "array", "ext": ext, "cap": cap, "elem": dict(T), "_texpr": ate}}
+            fte = {"k": "array", "elem": gen.tref([name]), "cap": gen.lit(2), "ext": False}
+            body.append({"d": "field", "name": "g%d" % x, "num": x + 2, "t": fte})
+            fields.append({"num": x + 2, "name": "g%d" % x,
+                           "t": {"k": "array", "ext": False, "cap": 2, "elem": art, "_texpr": fte}})
+            if x == len(chunk) // 2:
+                body.append({"d": "field", "name": "mid", "num": 100, "t": {"k": "uint", "n": 5}})
+                fields.append({"num": 100, "name": "mid", "t": {"k": "uint", "n": 5}})
+        decl = {"d": "message", "name": "Top", "ext": False, "body": body}
+        rt = {"k": "msg", "name": "Top", "ext": False, "fields": fields, "_decl": decl}
+        out.append({"files": {"main": [{"d": "proto", "name": "main"}] + decls + [decl]}, "order": ["main"],
+                    "main": "main", "top": "Top", "rtype": rt, "nbits": None})
+    return out
